@@ -869,3 +869,8 @@ V('C16-revert-D27-legacy-optarg-space', 'C16', 'pylatexenc/macrospec/_pyltxenc2_
                     ),""",
   """                    latexnodes_parsers.LatexOptionalSquareBracketsParser(),""",
   'R16k', 'D27: legacy optional argument rejects leading whitespace')
+
+V('C14-revert-D28-filter-autonamed', 'C14', CDB,
+  """                cat if not cat.startswith(_autogen_category_prefix) else None,
+""", """                cat,
+""", 'M9', 'D28: filtered_context() on an extended database raises ValueError (reserved category name)')
